@@ -276,6 +276,27 @@ class BndEval:
             return "`%s`" % (self.f.local_name(s[1]) or "_%d" % s[1])
         return str(s)
 
+    def descr_val(self, op):
+        """a stable, readable name of an integer operand: variable name, `x.len()`, constant"""
+        k = op_const(op)
+        if k is not None:
+            return str(k.get("v"))
+        key = self.key(op)
+
+        def show(kk):
+            if kk[0] == "const":
+                return str(kk[1])
+            if kk[0] == "local":
+                return "`%s`" % (self.f.local_name(kk[1]) or "_")
+            if kk[0] == "call":
+                return "%s()" % (kk[1] or "?").split("::")[-1]
+            if kk[0] in ("Add", "Sub", "Mul"):
+                return "(%s %s %s)" % (show(kk[1]), {"Add": "+", "Sub": "-", "Mul": "*"}[kk[0]], show(kk[2]))
+            if kk[0] == "place":
+                return "`%s`.." % (self.f.local_name(kk[1]) or "_")
+            return "?"
+        return show(key)
+
     def find_pattern(self, x, S):
         """if x is (a copy of) the match start of S.find(P): ('lit', text) / ('local', strid)"""
         f = self.f
@@ -578,6 +599,297 @@ def r7_slicing(ctx):
     r.counts["sites"] = len(sites)
     r.floor("str slicing sites", len(sites), 12)
     return r
+
+
+def _cmp_guards(f):
+    """[(op, key_a_operand, key_b_operand, true_target, false_target)] for integer comparisons that control a switch"""
+    out = []
+    for bb, b in enumerate(f.blocks):
+        t = b["t"]
+        if t[0] != "switch":
+            continue
+        for st in b["s"]:
+            if st[0] == "=" and st[2][0] == "bin" and st[2][1] in ("Lt", "Le", "Gt", "Ge") and op_local(t[1]) == place_local(st[1]):
+                false_t = [tg for v, tg in t[2] if v == 0]
+                if false_t:
+                    out.append((st[2][1], st[2][2], st[2][3], t[3], false_t[0]))
+    return out
+
+
+def r7_range_order(ctx):
+    r = Result("R7d", "every two-sided `str` range `s[a..b]` is proven to have a <= b: a is 0, b is `a + x` (unsigned), or a comparison "
+                      "`x < b` / `x <= b` (a = x or x + 1) dominates the site on its true edge (or the negation on its false edge); "
+                      "sites proven by reading are in the reviewed table; a range with a > b panics whatever the text is")
+    crate = ctx.bin
+    sites = slicing_sites(crate)
+    n = 0
+    for s in sites:
+        f = s.f
+        ev = BndEval(crate, f, s.bb)
+        rng = ev.range_of(s.c["args"][1])
+        if rng is None or rng[0] not in ("Range", "RangeInclusive"):
+            continue
+        n += 1
+        ks, ke = ev.key(rng[1]), ev.key(rng[2])
+        sname = ev.descr_str(s.c["args"][0])
+        key = re.sub(r"_\d+", "_", "R7d|%s|%s" % (f.id, sname))
+        why = None
+        one = ("const", "1")
+        if ks == ("const", "0"):
+            why = "start is 0"
+        elif ke and ke[0] == "Add" and ks in (ke[1], ke[2]):
+            why = "end = start + x"
+        else:
+            dom = ev.dom
+            for op, a, b, t_true, t_false in _cmp_guards(f):
+                ka, kb = ev.key(a), ev.key(b)
+                # facts established on each edge:  (lo, hi, strict)
+                facts = []
+                if op == "Lt":
+                    facts = [(t_true, ka, kb, True), (t_false, kb, ka, False)]
+                elif op == "Le":
+                    facts = [(t_true, ka, kb, False), (t_false, kb, ka, True)]
+                elif op == "Gt":
+                    facts = [(t_true, kb, ka, True), (t_false, ka, kb, False)]
+                elif op == "Ge":
+                    facts = [(t_true, kb, ka, False), (t_false, ka, kb, True)]
+                for tgt, lo, hi, strict in facts:
+                    if tgt not in dom.get(s.bb, set()) or hi != ke:
+                        continue
+                    if ks == lo or (strict and ks in (("Add", lo, one), ("Add", one, lo))):
+                        why = "guarded by a dominating comparison of start and end"
+        if why:
+            r.ok(sample={"site": crate.span_str(s.c["span"]), "string": sname, "start<=end": why})
+        elif key in REVIEWED:
+            r.review(key, REVIEWED[key])
+        else:
+            r.violate(key, "range `%s[a..b]` at %s: a <= b is not established (no `a + x` end, no dominating comparison): the slice "
+                           "panics when the start lies behind the end" % (sname, crate.span_str(s.c["span"])))
+    r.floor("two-sided str ranges", n, 2)
+    return r
+
+
+UNSIGNED = ("usize", "u32", "u64", "u16", "u8", "u128")
+
+
+def _cmp_facts(f):
+    """facts established on the edges of integer comparisons: [(target_block, lo_operand, hi_operand, strict)] meaning
+    lo < hi (strict) / lo <= hi on every path through target_block; plus (target, x, None, 'nonzero') for x != 0"""
+    out = []
+    for bb, b in enumerate(f.blocks):
+        t = b["t"]
+        if t[0] != "switch":
+            continue
+        for st in b["s"]:
+            if st[0] != "=" or st[2][0] != "bin" or op_local(t[1]) != place_local(st[1]):
+                continue
+            op, a, c = st[2][1], st[2][2], st[2][3]
+            false_t = [tg for v, tg in t[2] if v == 0]
+            if not false_t:
+                continue
+            t_true, t_false = t[3], false_t[0]
+            if op == "Lt":
+                out += [(t_true, a, c, True), (t_false, c, a, False)]
+            elif op == "Le":
+                out += [(t_true, a, c, False), (t_false, c, a, True)]
+            elif op == "Gt":
+                out += [(t_true, c, a, True), (t_false, a, c, False)]
+            elif op == "Ge":
+                out += [(t_true, c, a, False), (t_false, a, c, True)]
+            elif op == "Eq":
+                out += [(t_false, a, c, "ne")]
+            elif op == "Ne":
+                out += [(t_true, a, c, "ne")]
+    # switchInt directly on an integer: `match x { 0 => .., _ => .. }` / `if x == 0` lowered to a switch on x
+    for bb, b in enumerate(f.blocks):
+        t = b["t"]
+        if t[0] == "switch" and op_local(t[1]) is not None and f.local_ty(op_local(t[1])) in UNSIGNED:
+            zero = [tg for v, tg in t[2] if v == 0]
+            if zero and t[3] is not None and t[3] != zero[0]:
+                out.append((t[3], t[1], ["c", {"v": "0"}], "ne"))
+    return out
+
+
+def _unmodified_between(f, var, start, site, dom):
+    """no assignment to local `var` on a path from block `start` to block `site` (exclusive of the site's own statement)"""
+    if var is None:
+        return True
+    # blocks on some path start ->* site
+    fwd, st = {start}, [start]
+    while st:
+        x = st.pop()
+        if x == site:
+            continue
+        for s2 in f.succs(x):
+            if s2 not in fwd:
+                fwd.add(s2)
+                st.append(s2)
+    preds = f.preds()
+    bwd, st = {site}, [site]
+    while st:
+        x = st.pop()
+        for p2 in preds.get(x, []):
+            if p2 not in bwd and p2 in fwd:
+                bwd.add(p2)
+                st.append(p2)
+    between = (fwd & bwd) - {site}
+    for bb in between:
+        for s_ in f.blocks[bb]["s"]:
+            if s_[0] == "=" and place_local(s_[1]) == var:
+                return False
+        t = f.blocks[bb]["t"]
+        if t[0] == "call" and place_local(t[1]["dest"]) == var:
+            return False
+    return True
+
+
+def r7_sub_underflow(ctx):
+    r = Result("R7e", "every overflow-checked subtraction on an unsigned value (`a - b`, `a -= b`) is proven not to underflow: a "
+                      "comparison establishing b <= a (or a != 0 / a > 0 for `a - 1`) dominates it with `a` unmodified in between; "
+                      "`s.len() - t.len()` with t a trimmed / stripped part of s; `v.len() - 1` inside a loop over v; sites proven "
+                      "by reading are in the reviewed table. An underflow panics (debug) or wraps to a huge index (release)")
+    crate = ctx.bin
+    n = 0
+    for f in crate.real_fns():
+        facts = None
+        ev = None
+        for bb, b in enumerate(f.blocks):
+            t = b["t"]
+            if t[0] != "assert" or not t[3].startswith("Overflow:Sub") or t[7][4].startswith("macro:"):
+                continue
+            a, c = t[4][0], t[4][1]
+            tys = [f.local_ty(op_local(o)) if op_local(o) is not None else (op_const(o) or {}).get("t") for o in (a, c)]
+            if not any(x in UNSIGNED for x in tys if x):
+                continue
+            n += 1
+            ev = BndEval(crate, f, bb)
+            facts = facts if facts is not None else _cmp_facts(f)
+            ka, kc = ev.key(a), ev.key(c)
+            var_a = ka[1] if ka[0] == "local" else None
+            why = None
+            is_one = kc[0] == "const" and str(kc[1]).isdigit()
+            for tgt, lo, hi, strict in facts:
+                if tgt not in ev.dom.get(bb, set()):
+                    continue
+                klo, khi = ev.key(lo), ev.key(hi) if hi is not None else None
+                ok = False
+                if strict == "ne":
+                    # a != 0  ->  a - 1 is fine
+                    if is_one and str(kc[1]) == "1" and ((klo == ka and khi == ("const", "0")) or (khi == ka and klo == ("const", "0"))):
+                        ok = True
+                elif khi == ka and klo == kc:
+                    ok = True                      # b <= a / b < a
+                elif strict is True and khi == ka and is_one and str(kc[1]) == "1":
+                    ok = True                      # x < a with x unsigned  ->  a >= 1
+                elif khi == ka and is_one and klo[0] == "const" and str(klo[1]).isdigit():
+                    k0 = int(klo[1]) + (1 if strict else 0)
+                    if k0 >= int(kc[1]):
+                        ok = True                  # k < a  (or k <= a)  ->  a - b for b <= k(+1)
+                if ok and _unmodified_between(f, var_a, tgt, bb, ev.dom):
+                    why = "dominating comparison"
+                    break
+            if why is None:
+                why = _len_idioms(ev, f, bb, a, c, ka, kc)
+            fn_short = f.id
+            key = re.sub(r"_\d+", "_", "R7e|%s|%s - %s" % (fn_short, ev.descr_val(a), ev.descr_val(c)))
+            if why:
+                r.ok(sample={"site": crate.span_str(t[7]), "proof": why} if len(r.samples) < 6 else None)
+            elif key in REVIEWED:
+                r.review(key, REVIEWED[key])
+            else:
+                r.violate(key, "unsigned subtraction at %s is not proven free of underflow" % crate.span_str(t[7]))
+    r.counts["unsigned_checked_subtractions"] = n
+    r.floor("unsigned checked subtractions", n, 10)
+    return r
+
+
+TRIM_FNS = re.compile(r"<impl str>::(trim|trim_start|trim_end|trim_matches|trim_start_matches|trim_end_matches|strip_prefix|strip_suffix|trim_left|trim_right)$")
+
+
+def _len_idioms(ev, f, bb, a, c, ka, kc):
+    # s.len() - t.len(), t = s.trim*()
+    if ka[0] == "call" and kc[0] == "call" and re.search(r"::len$", ka[1] or "") and re.search(r"::len$", kc[1] or ""):
+        da = [d for d in f.whole_defs(op_local(a)) if d[0] == "call"] if op_local(a) is not None else []
+        dc = [d for d in f.whole_defs(op_local(c)) if d[0] == "call"] if op_local(c) is not None else []
+        if not da:
+            da = _call_def_through(f, a)
+        if not dc:
+            dc = _call_def_through(f, c)
+        if da and dc:
+            S = ev.strid(da[0][2]["args"][0])
+            tl = op_local(dc[0][2]["args"][0])
+            sid = ev.strid(dc[0][2]["args"][0])
+            if sid and sid[0] == "local":
+                for d in f.whole_defs(sid[1]):
+                    if d[0] == "call" and TRIM_FNS.search(d[2].get("res") or "") and ev.strid(d[2]["args"][0]) == S:
+                        return "len() of a string minus len() of a trimmed part of it"
+    # v.len() - 1 inside a loop over v / after a push into v
+    if kc == ("const", "1") and ka[0] == "call" and re.search(r"::len$", ka[1] or ""):
+        da = _call_def_through(f, a)
+        if da:
+            coll = _root_local(f, da[0][2]["args"][0])
+            if coll is not None:
+                shrinks = any(re.search(r"Vec::<T, A>::(pop|clear|truncate|drain|remove|retain|swap_remove|split_off|dedup\w*)$", c2.get("res") or "")
+                              and c2["args"] and _root_local(f, c2["args"][0]) == coll for _b, c2 in f.calls())
+                for b2, c2 in f.calls():
+                    if re.search(r"Vec::<T, A>::push$", c2.get("res") or "") and c2["args"] and _root_local(f, c2["args"][0]) == coll \
+                            and b2 in ev.dom.get(bb, set()) and not shrinks:
+                        return "len() - 1 after a dominating push into the same vector (never shrunk in this function)"
+            from .r1e import natural_loops, NEXT_LIKE
+            for h, latches, body in natural_loops(f):
+                if bb not in body:
+                    continue
+                for b2 in body:
+                    t2 = f.blocks[b2]["t"]
+                    if t2[0] == "call" and NEXT_LIKE.search(t2[1].get("fn") or "") and t2[1]["span"][4].startswith("desugar:ForLoop"):
+                        if coll is not None and coll in _iter_sources(f, t2[1]["args"][0]):
+                            return "len() - 1 inside a for loop over the same collection (non-empty while the body runs)"
+    return None
+
+
+def _call_def_through(f, op, depth=0):
+    l = op_local(op)
+    if l is None or depth > 6:
+        return []
+    ds = f.whole_defs(l)
+    if len(ds) == 1 and ds[0][0] == "call":
+        return ds
+    if len(ds) == 1 and ds[0][0] == "assign" and ds[0][3][0] == "use":
+        return _call_def_through(f, ds[0][3][1], depth + 1)
+    return []
+
+
+def _root_local(f, op, depth=0):
+    l = op_local(op)
+    if l is None or depth > 12:
+        return None
+    ds = f.whole_defs(l)
+    if len(ds) == 1 and ds[0][0] == "assign":
+        rv = ds[0][3]
+        if rv[0] == "use" and op_place(rv[1]) is not None and all(e == "*" for e in place_projs(op_place(rv[1]))):
+            return _root_local(f, rv[1], depth + 1)
+        if rv[0] == "ref" and all(e == "*" for e in place_projs(rv[2])):
+            return _root_local(f, ["cp", rv[2]], depth + 1)
+    if len(ds) == 1 and ds[0][0] == "call" and ds[0][2]["args"] and re.search(r"Deref(Mut)?>?::deref(_mut)?$|::as_slice$|::as_ref$", ds[0][2].get("res") or ""):
+        return _root_local(f, ds[0][2]["args"][0], depth + 1)
+    return l
+
+
+def _iter_sources(f, op, depth=0, seen=None):
+    """root locals of the collections an iterator operand was built from (through adaptors)"""
+    seen = seen if seen is not None else set()
+    l = op_local(op)
+    if l is None or l in seen or depth > 14:
+        return set()
+    seen.add(l)
+    out = {_root_local(f, op)}
+    for d in f.whole_defs(l):
+        if d[0] == "call" and d[2]["args"]:
+            out |= _iter_sources(f, d[2]["args"][0], depth + 1, seen)
+        elif d[0] == "assign" and d[3][0] in ("use", "ref"):
+            o = d[3][1] if d[3][0] == "use" else ["cp", d[3][2]]
+            out |= _iter_sources(f, o, depth + 1, seen)
+    return {x for x in out if x is not None}
 
 
 def r7_u32_overflow(ctx):
